@@ -214,6 +214,24 @@ def rule_list_helpers(cx, rid):
     return r
 
 
+def tuple_rhs_once(r, pm):
+    """every right-hand side of a tuple assignment is evaluated exactly once (one temporary per position)"""
+    from ..flow import CallCount
+    ha = pm.func("_handle_assignment_ast")
+    tup = [n for n in walk_local(ha) if isinstance(n, ast.If) and norm(n.test) == "isinstance(target, (ast.Tuple, ast.List))"]
+    if len(tup) != 1:
+        raise AnalysisError("tuple-assignment branch not found")
+    tb = tup[0]
+    # every right-hand side is evaluated exactly once: each pass of the loop over the right-hand sides creates one temporary
+    rl = [n for n in walk_local(tb) if isinstance(n, ast.For) and "right_data" in norm(n.iter) and any(isinstance(c, ast.Call) and norm(c.func) == "tmp_nodes.append" for c in ast.walk(n))]
+    if len(rl) != 1:
+        raise AnalysisError("tuple assignment: the loop creating the temporaries was not recognised")
+    cc = CallCount(lambda c: norm(c.func) == "tmp_nodes.append")
+    o = cc.block(rl[0].body, (0, 0))
+    ends = [x for x in (o.fall, o.cont) if x is not None]
+    r.check(bool(ends) and all(e == (1, 1) for e in ends) and o.brk is None, "tuple/one-temporary-per-right-hand-side", (pm, rl[0]), f"temporaries created per right-hand side on the paths through the loop: {ends}{' (or the loop stops early)' if o.brk is not None else ''}; `lo, hi = pot.read(), pot.read()` must evaluate (read) twice, as Python does")
+
+
 def run(cx):
     pm, em, am = mod(PARSER), mod(EMITTER), mod(ASTPY)
     for m in (pm, em, am):
@@ -439,6 +457,7 @@ def run(cx):
                 r.ok("all-new globals: no target can occur on the right-hand side")
                 continue
             r.check(norm(ex) == "tmp_names[idx]", "tuple/targets-assigned-from-temporaries", (pm, c), f"`{stmt_key(c)}` under {sorted(cs)}: a target is written directly from a right-hand side; `count, doubled = count + 1, count * 2` would read the already updated count")
+    tuple_rhs_once(r, pm)
     ext = [n for n in walk_local(tb) if isinstance(n, ast.Expr) and norm(n.value) == "nodes.extend(tmp_nodes)"]
     r.check(len(ext) == 1, "tuple/temporaries-emitted-first", (pm, tb), "the temporaries must be emitted before the target assignments")
 
